@@ -7,7 +7,8 @@ import FP.Proofs.ErrAsg
 # FP.Proofs.KLAEC — soundness of the `kLeastAbsErrorsCycles` LP (`klaecLP`)
 
 * the LP split into its blocks (`klaecLP_eq`, by `rfl`): the walk core with the repetition caps
-  `klaecCap` (largest flow value reachable from / reaching the edge inside an SCC, `1` outside) and
+  `klaecCap` (floor of the largest flow value reachable from / reaching the edge inside an SCC,
+  `1` outside) and
   the error block `klaecErr` (`pi`, weights, `ee` columns, the product blocks, the two error rows
   per non-ignored edge, the objective);
 * `klaec_sat_walkProducts_iff`: the block of products is satisfied iff every single `intProdQ` fragment is;
@@ -43,15 +44,19 @@ def klaecErr (inp : WalkInput) : LP :=
 
 theorem klaecLP_eq (inp : WalkInput) : klaecLP inp = (klaecCore inp).append (klaecErr inp) := rfl
 
-/-- the cap of an edge of the augmented graph: inside an SCC the largest flow value (`0` where the
-attribute is missing, ignored edges included) among the edge itself, the edges leaving a vertex
-reachable from its head and the edges entering a vertex that reaches its tail; `1` outside the SCCs -/
+/-- the cap of an edge of the augmented graph: inside an SCC the floor (since fix fcfd0b0) of the
+largest flow value (`0` where the attribute is missing, ignored edges included) among the edge
+itself, the edges leaving a vertex reachable from its head and the edges entering a vertex that
+reaches its tail; `1` outside the SCCs -/
 theorem klaecCap_eq (inp : WalkInput) (e : Edge) (he : e ∈ inp.st.g.edges) :
     klaecCap inp e = if isSccEdge inp.st.g e
-      then lookupD (edgeMaxReachable inp.st.g fun e => (inp.fOpt e).getD 0) e 0 else 1 := by
-  unfold klaecCap lookupD reachBounds capBounds isSccEdge
-  rw [lookup_map_self _ _ e he]
-  rfl
+      then (((lookupD (edgeMaxReachable inp.st.g fun e => (inp.fOpt e).getD 0) e 0).floor : Int) : Rat)
+      else 1 :=
+  lookupD_capBounds _ _ e he
+
+/-- the caps of the two cyclic error models are integers (since fix fcfd0b0) -/
+theorem klaecCap_int (inp : WalkInput) (e : Edge) : ∃ z : Int, klaecCap inp e = (z : Rat) :=
+  lookupD_capBounds_int _ _ e
 
 /-- the solver's objective at an assignment: `Σ_e scale(e)·ee(e)` over the non-ignored edges -/
 theorem klaecLP_obj (inp : WalkInput) (a : Asg) :
